@@ -1,3 +1,4 @@
+mod c_dc;
 mod c_eeprom;
 mod c_init;
 mod c_pd;
@@ -36,6 +37,8 @@ fn lookup(property: &str, check: &str) -> Option<Box<CaseFn>> {
         ("C14", "alias-and-writes") => Some(Box::new(c_eeprom::c14_case)),
         ("C07", "pd-cycle") => Some(Box::new(c_pd::c07_case)),
         ("C08", "pd-mapping") => Some(Box::new(c_pd::c08_case)),
+        ("C17", "dc-topology") => Some(Box::new(c_dc::c17_case)),
+        ("C18", "dc-sync") => Some(Box::new(c_dc::c18_case)),
         ("C15", "sdo-transfers") => Some(Box::new(c_sdo::c15_case)),
         ("C16", "hostile-mailbox") => Some(Box::new(c_sdo::c16_case)),
         ("C11", "wkc-group-transitions") => Some(Box::new(c_wkc::c11_group_case)),
@@ -72,6 +75,7 @@ fn main() {
         id @ ("C12" | "C13" | "C14") => c_eeprom::run(id, args.get(2).map(|s| s.as_str()).unwrap_or("quick"), seed, workers),
         id @ ("C07" | "C08") => c_pd::run(id, args.get(2).map(|s| s.as_str()).unwrap_or("quick"), seed, workers),
         id @ ("C15" | "C16") => c_sdo::run(id, args.get(2).map(|s| s.as_str()).unwrap_or("quick"), seed, workers),
+        id @ ("C17" | "C18") => c_dc::run(id, args.get(2).map(|s| s.as_str()).unwrap_or("quick"), seed, workers),
         "C11" => c_wkc::run_c11(args.get(2).map(|s| s.as_str()).unwrap_or("quick"), seed, workers),
         "C10" => c_state::run_c10(args.get(2).map(|s| s.as_str()).unwrap_or("quick"), seed, workers),
         "C09" => c_init::run_c09(args.get(2).map(|s| s.as_str()).unwrap_or("quick"), seed, workers),
